@@ -190,10 +190,21 @@ def huge_items():
                  ("-(7^15000)", -(7 ** 15000)), ("2^100000 % 10^20000", 2 ** 100000 % 10 ** 20000),
                  ("(10^12000+1)/3^2", F(10 ** 12000 + 1, 9)), ("1e12000 + 1 - 1", 10 ** 12000),
                  ("abs(-(10^40000))", 10 ** 40000), ("floor((10^15000+1)/7)", (10 ** 15000 + 1) // 7)]
+        from functools import reduce
+        ns = list(range(1, 601))
+        cases += [("+".join(str(n) for n in ns), sum(ns)), (" - ".join(str(n) for n in ns), 1 - sum(ns[1:])),
+                  ("*".join(str(n % 7 + 1) for n in ns), reduce(lambda a, b: a * b, [n % 7 + 1 for n in ns])),
+                  ("/".join(str(n % 5 + 1) for n in ns[:400]), reduce(lambda a, b: a / b, [F(n % 5 + 1) for n in ns[:400]])),
+                  ("+".join("1/%d" % n for n in ns[:300]), sum(F(1, n) for n in ns[:300])),
+                  ("(" * 40 + "1/3" + "+1)" * 40, F(1, 3) + 40), ("-(" * 41 + "2/7" + ")" * 41, -F(2, 7)),
+                  ("2^" * 9 + "1", 2 ** 256), ("(" * 30 + "7" + ")^1" * 30, 7),
+                  (" % ".join(["(10^30 + 7)"] + ["%d" % (10 ** 6 + n) for n in range(200)]), reduce(lambda a, b: a % b, [10 ** 30 + 7] + [10 ** 6 + n for n in range(200)]))]
         items = []
         for text, v in cases:
+            if isinstance(v, F) and v.denominator == 1:
+                v = int(v)
             want = "I:%d" % v if isinstance(v, int) else "F:%d/%d" % (v.numerator, v.denominator)
-            items.append(([text], want, "exact arithmetic with results beyond 10000 digits"))
+            items.append(([text], want, "exact arithmetic with results beyond 10000 digits" if len(want) > 10000 else "exact arithmetic over long chains and deep brackets"))
         return items
     finally:
         if old is not None:
